@@ -60,26 +60,50 @@ def utf8Valid : Bytes → Bool
       | _ => false
     else false
 
+/-- number of bytes the lead byte announces (Go's `first[b] & 7`; invalid leads count 1) -/
+def leadSize (b : Nat) : Nat :=
+  if b < 0x80 then 1 else if 0xC2 ≤ b && b ≤ 0xDF then 2 else if 0xE0 ≤ b && b ≤ 0xEF then 3
+  else if 0xF0 ≤ b && b ≤ 0xF4 then 4 else 1
+
+/-- accepted range of the second byte (Go's `acceptRanges`) -/
+def secondOk (b0 b1 : Nat) : Bool :=
+  if b0 == 0xE0 then 0xA0 ≤ b1 && b1 ≤ 0xBF
+  else if b0 == 0xED then 0x80 ≤ b1 && b1 ≤ 0x9F
+  else if b0 == 0xF0 then 0x90 ≤ b1 && b1 ≤ 0xBF
+  else if b0 == 0xF4 then 0x80 ≤ b1 && b1 ≤ 0x8F
+  else isCont b1
+
+/-- model of `utf8.FullRune(p)`: an invalid encoding counts as a full (error) rune -/
+def fullRune : Bytes → Bool
+  | [] => false
+  | [b0] => leadSize b0 ≤ 1
+  | [b0, b1] => leadSize b0 ≤ 2 || !secondOk b0 b1
+  | b0 :: b1 :: b2 :: rest => leadSize b0 ≤ 3 + rest.length || !secondOk b0 b1 || !isCont b2
+
 /-- the "eliminate any partial rune at the end" loop of `FromPlain`
-    (`for i := len-1; i >= 0 && i > len-4; i--`) -/
+    (`for i := len-1; i >= 0 && i > len-4; i--`): the last rune start among the final
+    three bytes is dropped, with what follows it, when it does not start a full rune -/
 def stripPartial (content : Bytes) : Bytes :=
   match content.reverse with
   | [] => content
   | b1 :: r1 =>
-    if b1 < 0x80 then content else if runeStart b1 then r1.reverse else
+    if b1 < 0x80 then content else
+    if runeStart b1 then (if fullRune [b1] then content else r1.reverse) else
     match r1 with
     | [] => content
     | b2 :: r2 =>
-      if b2 < 0x80 then content else if runeStart b2 then r2.reverse else
+      if b2 < 0x80 then content else
+      if runeStart b2 then (if fullRune [b2, b1] then content else r2.reverse) else
       match r2 with
       | [] => content
       | b3 :: r3 =>
-        if b3 < 0x80 then content else if runeStart b3 then r3.reverse else content
+        if b3 < 0x80 then content else
+        if runeStart b3 then (if fullRune [b3, b2, b1] then content else r3.reverse) else content
 
 def textClass (b : Nat) : Nat := textChars.getD b 0
 
 /-- `ascii(content)` -/
-def ascii (content : Bytes) : Bool := content.all (fun b => textClass b == cT)
+def ascii (content : Bytes) : Bool := content.all (fun b => !(b ≥ 0x80) && textClass b == cT)
 
 /-- `latin(content)` -/
 def latin (content : Bytes) : Bytes :=
